@@ -13,7 +13,7 @@
 From Coq Require Import List.
 Import ListNotations.
 Require Import ZV.Model.GenShape ZV.Proofs.GenShapeProofs ZV.Model.Lexer.
-Require ZV.Model.Reader ZV.Properties.C13.
+Require ZV.Model.Reader ZV.Properties.C13 ZV.Proofs.ReaderFuel.
 Require Import ZV.Model.CallCheck ZV.Proofs.CallCheckProofs.
 Require Import ZV.Model.Destructure ZV.Proofs.DestructureProofs.
 Require ZV.Model.PrattTypes ZV.Model.Pratt ZV.Model.PrattShape ZV.Proofs.PrattShapeProofs ZV.Proofs.PrattFuelProofs ZV.Generated.InfixTable.
@@ -45,6 +45,52 @@ Theorem read_total : forall strict cfix fuel p text,
   fst (ZV.Model.Reader.observe (ZV.Model.Reader.parse_after strict cfix fuel p text)) <> ZV.Model.Reader.StCrash.
 Proof. exact ZV.Properties.C13.read_total. Qed.
 Print Assumptions read_total.
+
+(* the reader RETURNS (Proofs/ReaderFuel.v): read_total excludes the panic sites but leaves the model's own
+   out-of-fuel outcome open.  With fuel 3 * (number of tokens + number of '{' tokens) + 2 (read_fuel; the
+   tokens are those the lexer model queues for the text) the model of ParsingIter / ParseExpression /
+   ParseList / ParseArray / ParseInfix / parsePrefixOperand / ParseBlockComment / the '{' look-ahead
+   never runs out of fuel: on every text, in every parser state before ResetAddNewInput, for both settings
+   of the two model flags, the caller of ParseTokens observes Done, NeedMore or an error.
+   reader_never_out_of_fuel is the same for ANY token queue (also one the lexer cannot produce). *)
+Module RF := ZV.Proofs.ReaderFuel.
+Module RD := ZV.Model.Reader.
+
+Theorem read_returns : forall strict cfix fuel p text, (RF.read_fuel p text <= fuel)%nat ->
+  fst (RD.observe (RD.parse_after strict cfix fuel p text)) = RD.StDone \/
+  fst (RD.observe (RD.parse_after strict cfix fuel p text)) = RD.StMore \/
+  fst (RD.observe (RD.parse_after strict cfix fuel p text)) = RD.StErr.
+Proof. exact RF.whole_returns. Qed.
+Print Assumptions read_returns.
+
+Theorem read_returns_pieces : forall cfix fuel pieces, (RF.read_fuel (RD.p_init 0) (concat pieces) <= fuel)%nat ->
+  fst (RD.observe (RD.parse_pieces true cfix fuel pieces)) = RD.StDone \/
+  fst (RD.observe (RD.parse_pieces true cfix fuel pieces)) = RD.StMore \/
+  fst (RD.observe (RD.parse_pieces true cfix fuel pieces)) = RD.StErr.
+Proof. exact RF.pieces_returns. Qed.
+Print Assumptions read_returns_pieces.
+
+Theorem reader_never_out_of_fuel : forall strict cfix fuel acc q, (3 * RF.wt q + 2 <= fuel)%nat ->
+  RF.is_fuel (RD.ptop strict cfix fuel acc q) = false.
+Proof. exact RF.ptop_no_fuel. Qed.
+Print Assumptions reader_never_out_of_fuel.
+
+Theorem read_fuel_linear : forall p text, (RF.read_fuel p text <= 6 * length (RF.read_tokens p text) + 2)%nat.
+Proof. exact RF.read_fuel_le. Qed.
+Print Assumptions read_fuel_linear.
+
+(* non-vacuity: the fuel condition matters and is met by small numbers.  `(a)`: three tokens, read_fuel 11;
+   the model runs out of fuel with 3 and is done with 4.  `{a:1}`: the brace counts twice, read_fuel 17. *)
+Example ex_read_fuel_paren : RF.read_fuel (RD.p_init 0) RF.text_paren_a = 11%nat.
+Proof. vm_compute. reflexivity. Qed.
+Example ex_read_out_of_fuel : fst (RD.observe (RD.parse_whole true true 3 RF.text_paren_a)) = RD.StFuel.
+Proof. vm_compute. reflexivity. Qed.
+Example ex_read_done : fst (RD.observe (RD.parse_whole true true 11 RF.text_paren_a)) = RD.StDone.
+Proof. vm_compute. reflexivity. Qed.
+Example ex_read_fuel_hash : RF.read_fuel (RD.p_init 0) RF.text_hash_a1 = 17%nat.
+Proof. vm_compute. reflexivity. Qed.
+Example ex_read_more : fst (RD.observe (RD.parse_whole true true 11 RF.text_open_a)) = RD.StMore.
+Proof. vm_compute. reflexivity. Qed.
 
 (* check.go FunctionCallNameTypeCheck + the arity test of CallFunction (VM level, outside any recover):
    for every declared parameter list with distinct names and every list of evaluated actual arguments
